@@ -7,6 +7,7 @@
   `Spec.nodes`) and transported through `rule_iff`.
 -/
 import PyGqlModel.Props.C06_doc
+import PyGqlModel.Props.C06_names
 import PyGqlModel.Lemmas.ValidateTr
 namespace PyGql.Props.C06
 open PyGql PyGql.Validate PyGql.Validate.Spec
@@ -14,7 +15,8 @@ open PyGql PyGql.Validate PyGql.Validate.Spec
 /-- rules with a `rule_*_iff` theorem -/
 def Proved : List Rule :=
   [.executableDefinitions, .loneAnonymousOperation, .singleFieldSubscriptions, .knownTypeNames,
-   .variablesAreInputTypes, .knownFragmentNames, .uniqueDirectivesPerLocation, .uniqueArgumentNames]
+   .variablesAreInputTypes, .knownFragmentNames, .uniqueDirectivesPerLocation, .uniqueArgumentNames,
+   .uniqueFragmentNames, .uniqueOperationName]
 
 /-- the specification predicate of a proved rule -/
 def SpecOf (r : Rule) (s : SchemaD) (d : Doc) : Prop :=
@@ -27,13 +29,15 @@ def SpecOf (r : Rule) (s : SchemaD) (d : Doc) : Prop :=
   | .knownFragmentNames => Spec.knownFragmentNames d
   | .uniqueDirectivesPerLocation => Spec.uniqueDirectivesPerLocation d
   | .uniqueArgumentNames => Spec.uniqueArgumentNames d
+  | .uniqueFragmentNames => Spec.uniqueFragmentNames d
+  | .uniqueOperationName => Spec.uniqueOperationNames d
   | _ => True
 
 /-- **rule_k_iff**, uniformly: the rule visitor run alone reports nothing ⇔ its specification predicate holds -/
 theorem rule_iff (s : SchemaD) (fx : Fixes) (d : Doc) (r : Rule) (hr : r ∈ Proved) :
     Silent s fx r d ↔ SpecOf r s d := by
   simp only [Proved, List.mem_cons, List.not_mem_nil, or_false] at hr
-  rcases hr with rfl | rfl | rfl | rfl | rfl | rfl | rfl | rfl
+  rcases hr with rfl | rfl | rfl | rfl | rfl | rfl | rfl | rfl | rfl | rfl
   · exact rule_executable_definitions_iff s fx d
   · exact rule_lone_anonymous_operation_iff s fx d
   · exact rule_single_field_subscriptions_iff s fx d
@@ -42,6 +46,8 @@ theorem rule_iff (s : SchemaD) (fx : Fixes) (d : Doc) (r : Rule) (hr : r ∈ Pro
   · exact rule_known_fragment_names_iff s fx d
   · exact rule_unique_directives_per_location_iff s fx d
   · exact rule_unique_argument_names_iff s fx d
+  · exact rule_unique_fragment_names_iff s fx d
+  · exact rule_unique_operation_names_iff s fx d
 
 /-- **verdict_iff** for the conjunction of the rules proved -/
 theorem verdict_iff_proved (s : SchemaD) (fx : Fixes) (d : Doc) :
@@ -77,7 +83,7 @@ theorem fragNames_tr (T : Tr) (d : Doc) : Spec.fragNames (T.doc d) = (Spec.fragN
 theorem spec_tr (T : Tr) (hinj : ∀ a b, T.frag a = T.frag b → a = b) (s : SchemaD) (d : Doc) (r : Rule)
     (hr : r ∈ Proved) : SpecOf r s (T.doc d) ↔ SpecOf r s d := by
   simp only [Proved, List.mem_cons, List.not_mem_nil, or_false] at hr
-  rcases hr with rfl | rfl | rfl | rfl | rfl | rfl | rfl | rfl
+  rcases hr with rfl | rfl | rfl | rfl | rfl | rfl | rfl | rfl | rfl | rfl
   · -- executable definitions
     simp only [SpecOf, Spec.executableDefinitions, Tr.doc, List.mem_map, forall_exists_index, and_imp,
       forall_apply_eq_imp_iff₂]
@@ -161,6 +167,20 @@ theorem spec_tr (T : Tr) (hinj : ∀ a b, T.frag a = T.frag b → a = b) (s : Sc
     · cases m <;> simp [Tr.node, Tr.dir]
       rename_i dr _
       exact ((T.args_perm dr.args).map _).nodup_iff
+  · -- unique fragment names
+    simp only [SpecOf, Spec.uniqueFragmentNames, fragNames_tr]
+    unfold List.Nodup
+    rw [List.pairwise_map]
+    exact ⟨fun h => h.imp (fun {a b} hne (e : a = b) => hne (congrArg T.frag e)),
+      fun h => h.imp (fun {a b} hne (e : T.frag a = T.frag b) => hne (hinj _ _ e))⟩
+  · -- unique operation names
+    simp only [SpecOf, Spec.uniqueOperationNames]
+    have : Spec.opNames (T.doc d) = Spec.opNames d := by
+      simp only [Spec.opNames, Tr.doc]
+      induction d.defs with
+      | nil => rfl
+      | cons x xs ih => cases x <;> simp_all [Tr.defn, List.filterMap_cons]
+    rw [this]
 
 /-- the specification predicate of every proved rule is invariant under reordering of the definitions -/
 theorem spec_perm_definitions (s : SchemaD) {d d' : Doc} (h : d.defs.Perm d'.defs) (r : Rule) (hr : r ∈ Proved) :
@@ -173,7 +193,7 @@ theorem spec_perm_definitions (s : SchemaD) {d d' : Doc} (h : d.defs.Perm d'.def
     · rintro ⟨_, H⟩; exact ⟨hP _, fun n ⟨x, hx, hm⟩ => H n ⟨x, h.mem_iff.mpr hx, hm⟩⟩
     · rintro ⟨_, H⟩; exact ⟨hP _, fun n ⟨x, hx, hm⟩ => H n ⟨x, h.mem_iff.mp hx, hm⟩⟩
   simp only [Proved, List.mem_cons, List.not_mem_nil, or_false] at hr
-  rcases hr with rfl | rfl | rfl | rfl | rfl | rfl | rfl | rfl
+  rcases hr with rfl | rfl | rfl | rfl | rfl | rfl | rfl | rfl | rfl | rfl
   · simp only [SpecOf, Spec.executableDefinitions]
     exact ⟨fun H x hx => H x (h.mem_iff.mpr hx), fun H x hx => H x (h.mem_iff.mp hx)⟩
   · simp only [SpecOf, Spec.loneAnonymousOperation, Spec.operations]
@@ -189,6 +209,10 @@ theorem spec_perm_definitions (s : SchemaD) {d d' : Doc} (h : d.defs.Perm d'.def
   · exact hnodes _ (fun _ => by simp [Spec.uniqueDirectivesPerLocation.Node.dirsOf?])
   · simp only [SpecOf, Spec.uniqueArgumentNames]
     exact and_congr (hnodes _ (fun _ => by simp)) (hnodes _ (fun _ => by simp))
+  · simp only [SpecOf, Spec.uniqueFragmentNames, Spec.fragNames]
+    exact (h.filterMap _).nodup_iff
+  · simp only [SpecOf, Spec.uniqueOperationNames, Spec.opNames]
+    exact (h.filterMap _).nodup_iff
 
 /-! ### transported to the rule visitors -/
 
